@@ -286,6 +286,21 @@ def r16_2_3(U, rep, envs):
           keys = _dict_keys(a)
         if keys is None:
           keys = _eval_keys(U, reset, a)         # not a literal: evaluate the (sliced) expression
+        d_self = dotted(a) if isinstance(a, ast.Attribute) else None
+        if d_self and d_self[0] == 'self':
+          # R16.12: the dict handed out by reset is an ATTRIBUTE OF THE ENV: step logs into state.metrics / state.info in
+          # place (state.metrics.update(...), State.replace is shallow), so un-jitted steps write into the env's own dict and
+          # a later reset(key) depends on the call history
+          rep.fail('R16.12', 'fresh:%s.reset.%s' % (cname, fld), '%s.reset hands out `%s` -- an attribute of the env -- as state.%s: '
+                   'step updates that dict in place, so reset is no longer a function of its key' % (cname, ast.unparse(a), fld),
+                   where=reset.where(a), construct=ast.unparse(a))
+          init = method(U, modname, cname, '__init__')
+          dnode = None
+          if init is not None:
+            for n in own_nodes(init.node):
+              if isinstance(n, ast.Assign) and any(dotted(t_) == d_self for t_ in n.targets if isinstance(t_, ast.Attribute)):
+                dnode = n.value
+          keys = (_dict_keys(dnode) if dnode is not None else None) or []
         if keys is None:
           raise AnalysisError('%s.reset: cannot enumerate %s keys' % (cname, fld))
       created[fld] = set(keys)
